@@ -2,7 +2,7 @@
 import os
 from .. import sym as S
 from ..values import UNDEF
-from ..histcheck import reach_witness, busy_witness, sequences, run_hist
+from ..histcheck import match_unwind_for, reach_witness, busy_witness, sequences, run_hist
 from ..framework import Run
 
 FIELDS = ('orders_added', 'orders_removed', 'quantity_executed', 'value_executed')
@@ -66,7 +66,7 @@ def cubes(tier):
                     'price': price, 'positive_quantities': True, 'family': 'one-op-from-arbitrary-state (arbitrary counters)',
                     'default_unwind': 8})
     for s in sequences(depth, nadds):
-        mu = 4 if s.count('M') <= 1 else 3
+        mu = match_unwind_for(s, 4)
         out.append({'seq': s, 'match_unwind': mu, 'pop_unwind': depth + 3, 'qty_mode': 'full', 'price': price,
                     'positive_quantities': True, 'family': 'history'})
     return out
